@@ -18,7 +18,7 @@ def bounds(tier):
             "edit_depth_1_layout_pieces": 4 if tier == "quick" else 5,
             "edit_depth_2_layout_pieces": 3 if tier == "quick" else 4,
             "edit_depth_3_layout_pieces": 0 if tier == "quick" else 2,
-            "edits": "append, remove(v), replace(v,z), ref.value=z, ref.remove(); depth 2 both inside one `with` block and across two"}
+            "edits": "append, remove(v), replace(v,z), ref.value=z, ref.remove(); depth 2 inside one `with` block and across two, through fresh view objects, one shared view object, two alternating view objects, and with the first block aborted by an exception"}
 
 
 def assumptions():
@@ -29,9 +29,9 @@ def assumptions():
 
 PIECES = {
     "ws": lambda seed: [core.rep(seed, ["a", "q", "0", "é"]), core.rep(seed, ["bb", "x1", "b-b", "üü"]), "#h",
-                        " ", "  ", "\t", "\n ", "\n\t", "\n#c\n "],
+                        " ", "  ", "\t", "\n ", "\n\t", "\n#h\n "],
     "comma": lambda seed: [core.rep(seed, ["a", "q", "0", "é"]), core.rep(seed, ["b c", "x 1", "b  c", "ü ü"]), "#h",
-                           ",", ", ", " ", "\n ", "\n#c\n "],
+                           ",", ", ", " ", "\n ", "\n#h\n "],
 }
 
 
@@ -158,6 +158,10 @@ def _wellformed(f):
     return len(ps) == 1 and [str(k) for k in ps[0].keys()] == ["X", "F", "Y"]
 
 
+class _Abort(Exception):
+    pass
+
+
 def run_case(case):
     """-> (violations, final model list or None)"""
     interp, v, sessions = case["interp"], case["value"], case["sessions"]
@@ -184,10 +188,18 @@ def run_case(case):
             return [("list/noop-changed/" + interp, doc, f.dump())], None
         return [], vals
     last = None
-    for sess in sessions:
+    views = case.get("views", "fresh")
+    vobjs = [p.as_interpreted_dict_view(I), p.as_interpreted_dict_view(I)]
+    prev_dump = doc
+    for si, sess in enumerate(sessions):
+        view = p.as_interpreted_dict_view(I) if views == "fresh" else vobjs[0] if views == "same" else vobjs[si % 2]
+        abort = bool(sess) and tuple(sess[-1]) == ("abort",)
+        edits = sess[:-1] if abort else sess
+        before = vals
+        last = ("noop",)
         try:
-            with p.as_interpreted_dict_view(I)["F"] as lst:
-                for e in sess:
+            with view["F"] as lst:
+                for e in edits:
                     last = e
                     vals = model_edit(vals, e)
                     impl_edit(lst, e)
@@ -195,6 +207,11 @@ def run_case(case):
                         got = list(lst)
                         if got != vals:
                             return [("list/%s/wrong-open-list/%s" % (e[0], interp), vals, got)], None
+                if abort:
+                    raise _Abort()
+        except _Abort:
+            vals = before          # a with-block left by an exception writes nothing
+            last = ("abort",)
         except ValueError as ex:
             if not vals:
                 return [], None           # removing the only value may be refused
@@ -203,6 +220,9 @@ def run_case(case):
             return [("list/%s/raises/%s" % (last[0], interp), vals, "%s: %r" % (type(ex).__name__, ex))], None
         out = f.dump()
         sig = "list/%s/%%s/%s" % (last[0], interp)
+        if (abort or not edits) and out != prev_dump:
+            return [(sig % "document-changed", prev_dump, out)], None
+        prev_dump = out
         try:
             f2 = _parse(out)
             ok = _wellformed(f2)
@@ -210,7 +230,7 @@ def run_case(case):
             return [(sig % "invalid-doc", "parses", "%s: %r on %r" % (type(ex).__name__, ex, out))], None
         if not ok:
             return [(sig % "invalid-doc", "one paragraph X F Y, no error element", out)], None
-        if not vals:
+        if not vals and edits and not abort:
             return [(sig % "empty-list-accepted", "ValueError or a non-empty list", out)], None
         if not out.startswith("X: 1\nF:") or not out.endswith("\nY: 2\n") or out.count("\nY: 2\n") != 1:
             return [(sig % "nonlocal", "X: 1\\nF:...\\nY: 2\\n", out)], None
@@ -220,12 +240,15 @@ def run_case(case):
         try:
             got = list(p2.as_interpreted_dict_view(I)["F"])
             live = list(p.as_interpreted_dict_view(I)["F"])
+            same = list(view["F"]) if views != "fresh" else live
         except Exception as ex:
             return [(sig % "reread-raises", vals, "%s: %r on %r" % (type(ex).__name__, ex, out))], None
         if got != vals:
             return [(sig % "wrong-list", vals, "%r from %r" % (got, out))], None
         if live != vals:
             return [(sig % "wrong-live-list", vals, live)], None
+        if same != vals:
+            return [(sig % "wrong-list-through-the-same-view", vals, same)], None
     return [], vals
 
 
@@ -269,6 +292,7 @@ def run_unit(u, tier, seed):
     if "sweep" in u:
         return run_sweep(part, interp, u["sweep"])
     Lread, L1, L2, L3 = (4, 4, 3, 0) if tier == "quick" else (5, 5, 4, 2)
+    Lv = 2 if tier == "quick" else 3
     for v, L in layouts(interp, u["first"], max(Lread, L1), seed):
         base = {"interp": interp, "value": v}
         part.states += 1
@@ -310,11 +334,33 @@ def run_unit(u, tier, seed):
                 part.outcomes["edit-refused" if not bad else "edit-violation"] += 1
                 continue
             part.outcomes["edit/" + e1[0]] += 1
+            if L <= Lv:
+                # an aborted session followed by a no-change session through the same view object
+                c = dict(base, sessions=[[e1, ("abort",)], []], views="same")
+                bad, _x = run_case(c)
+                part.evaluations += 1
+                part.transitions += 1
+                part.traces += 1
+                for sig, exp, obs in bad:
+                    part.violation(sig, c, exp, obs, rank=10 * L + 2)
+                # ... or by an edit session (the aborted edits are gone: e2 ranges over edits of the original list)
+                for e2 in edits_for(vals, interp):
+                    for views in ("same", "fresh"):
+                        c = dict(base, sessions=[[e1, ("abort",)], [e2]], views=views)
+                        bad, _x = run_case(c)
+                        part.evaluations += 1
+                        part.transitions += 1
+                        part.traces += 1
+                        for sig, exp, obs in bad:
+                            part.violation(sig, c, exp, obs, rank=10 * L + 2)
             if L > L2:
                 continue
             for e2 in edits_for(v1, interp):
-                for sessions, observe in (([[e1, e2]], False), ([[e1, e2]], True), ([[e1], [e2]], False)):
-                    c = dict(base, sessions=sessions, observe=observe)
+                variants = [([[e1, e2]], False, "fresh"), ([[e1, e2]], True, "fresh"), ([[e1], [e2]], False, "fresh")]
+                if L <= Lv:
+                    variants += [([[e1], [e2]], False, "same"), ([[e1], [e2]], False, "two")]
+                for sessions, observe, views in variants:
+                    c = dict(base, sessions=sessions, observe=observe, views=views)
                     bad, v2 = run_case(c)
                     part.evaluations += 1
                     part.transitions += 1
@@ -322,7 +368,7 @@ def run_unit(u, tier, seed):
                     part.states += 1
                     for sig, exp, obs in bad:
                         part.violation(sig, c, exp, obs, rank=10 * L + 2)
-                    if bad or v2 is None or L > L3 or len(sessions) == 1 or observe:
+                    if bad or v2 is None or L > L3 or len(sessions) == 1 or observe or views != "fresh":
                         continue
                     for e3 in edits_for(v2, interp):
                         for s3 in ([[e1], [e2, e3]], [[e1], [e2], [e3]]):
